@@ -27,16 +27,16 @@ type FnResult struct {
 func paramWF(g *Gen, t types.Type, n string, st *State, isRecv bool) string {
 	switch t.Underlying().(type) {
 	case *types.Slice:
-		return fmt.Sprintf("(and (>= (sref %s) 0) (< (sref %s) %s) (<= 0 (soff %s)) (<= 0 (sllen %s)) (<= (sllen %s) (scap %s)) (=> (= (sref %s) 0) (= (scap %s) 0)))", n, n, st.Next, n, n, n, n, n, n)
+		return fmt.Sprintf("(and (>= (sref %s) 0) %s)", n, g.heapValWF(t, n, st))
 	case *types.Pointer:
 		if isRecv {
-			return fmt.Sprintf("(and (> (pref %s) 0) (< (pref %s) %s) (>= (poff %s) 0))", n, n, st.Next, n)
+			return fmt.Sprintf("(and (> (pref %s) 0) (>= (poff %s) 0) %s)", n, n, g.heapValWF(t, n, st))
 		}
-		return fmt.Sprintf("(and (>= (pref %s) 0) (< (pref %s) %s) (>= (poff %s) 0) (=> (= (pref %s) 0) (= (poff %s) 0)))", n, n, st.Next, n, n, n)
+		return fmt.Sprintf("(and (>= (pref %s) 0) (>= (poff %s) 0) %s)", n, n, g.heapValWF(t, n, st))
 	case *types.Map, *types.Chan:
-		return fmt.Sprintf("(and (>= %s 0) (< %s %s))", n, n, st.Next)
+		return g.heapValWF(t, n, st)
 	case *types.Interface, *types.Signature:
-		return heapValWF(types.NewInterfaceType(nil, nil), n, st)
+		return g.heapValWF(types.NewInterfaceType(nil, nil), n, st)
 	case *types.Struct:
 		a := &Act{g: g}
 		return a.loadedWF(t, n, st)
@@ -69,10 +69,29 @@ func (eng *Engine) verifyFunction(fn *ssa.Function, modes Modes) (res *FnResult)
 	eng.wantCallPre = modes.Safety || modes.Post
 	eng.wantTermination = modes.Termination
 	eng.probes = modes.Probes
-	g.checkFrame = modes.Frame
+	// a contract's modifies clause (default: nothing) is assumed by loop frames and by callers, so it is checked
+	// whenever the contract is; functions without contract are only assumed effect-free when a static analysis says so
+	g.checkFrame = modes.Frame || (modes.Post && ct != nil && !ct.Trusted && eng.specBySSA(fn) == nil)
+	if ct == nil && !modes.Frame {
+		g.modAll = !eng.effectFree(fn)
+	}
 	st0 := g.freshState("entry")
 	g.entry = st0
 	g.assume(fmt.Sprintf("(> %s 0)", st0.Next))
+	// initial contents of immutable package-level variables (constants stored by the package initialiser)
+	refd := map[*ssa.Global]bool{}
+	eng.referencedGlobals(fn, 0, map[*ssa.Function]bool{}, refd)
+	for gl := range refd {
+		if eng.globalReassigned(gl) {
+			continue
+		}
+		for _, f := range eng.globalInit(gl) {
+			if f.kind == "" {
+				continue
+			}
+			g.assume(fmt.Sprintf("(= %s %s)", sel(st0.H[f.kind], fmt.Sprintf("(- %d)", eng.globalID(gl)), fmt.Sprint(f.slot)), f.term))
+		}
+	}
 	top := &Act{g: g, fn: fn, prefix: "", top: true, tuples: map[ssa.Value][]string{}, ct: ct, lets: map[string]tv{}}
 	var args []string
 	for i, p := range fn.Params {
@@ -122,6 +141,8 @@ func (eng *Engine) verifyFunction(fn *ssa.Function, modes Modes) (res *FnResult)
 				}
 				refs = append(refs, g.def("modref", "Int", r))
 			}
+			g.modRefs = refs
+			g.modAll = ct.ModifiesAll
 			if ct.ModifiesAll {
 				g.modset = func(r string) string { return "true" }
 			} else if len(refs) > 0 {
